@@ -19,7 +19,11 @@ the steps of the Lean model `FfcxModel/Jit/Cache.lean` (same op / result names):
     release  jit.os.replace(.c -> .c.failed)               ok | enoent
 
 choice: "none" | "fail" (the gated op raises, meaningful for gen/src/obj/link1/link2) | "kill" (the
-thread is abandoned at its gate: it never runs again, files stay as they are).
+thread is abandoned at its gate: it never runs again, files stay as they are) | "again" (a thread
+whose request has returned or raised issues a new `compile_forms` call — the same "process" asks
+again; for a request in progress it is an ordinary step).
+On a failure inside the `try` of `_compile_objects` the second assignment to
+`root_logger.handlers` (op `restore`) happens in the `finally` block, before `release`.
 
 The C compiler is run for real exactly once (`Reference`); the gated `FFI.compile` replays the
 reference files phase by phase (source via tmp+rename like cffi, object file, `.so` unlinked and
@@ -232,6 +236,8 @@ class _Proc:
         self.outcome = None  # ("done", built, objs, mod) | ("raised", exc)
         self.loaded = []  # so states this request tried to import
         self.compiles = 0
+        self.again = False  # the scheduler asked for a further request
+        self.history = []  # outcomes of earlier requests of this "process"
 
 
 class Scenario:
@@ -261,21 +267,32 @@ class Scenario:
 
     def _worker(self, st: _Proc):
         self.by_thread[threading.get_ident()] = st
-        try:
-            objs, mod, code = jit.compile_forms(
-                [self.ref.form_factory()], options=dict(self.ref.options), cache_dir=self.cache_dir,
-                timeout=self.timeout, **self.extra_kwargs,
-            )
-            st.outcome = ("done", code[0] is not None, objs, mod)
-        except Killed:
-            st.outcome = ("dead",)
-        except BaseException as e:  # noqa: BLE001
-            st.outcome = ("raised", e)
-        finally:
+        while True:
+            try:
+                objs, mod, code = jit.compile_forms(
+                    [self.ref.form_factory()], options=dict(self.ref.options), cache_dir=self.cache_dir,
+                    timeout=self.timeout, **self.extra_kwargs,
+                )
+                st.outcome = ("done", code[0] is not None, objs, mod)
+            except Killed:
+                st.outcome = ("dead",)
+            except BaseException as e:  # noqa: BLE001
+                st.outcome = ("raised", e)
             with self.cv:
                 st.finished = True
                 st.at_gate = False
                 self.cv.notify_all()
+                # the "process" stays alive: it may be asked for a further request
+                while not (st.again or st.abort):
+                    self.cv.wait()
+                if st.abort or st.outcome[0] == "dead":
+                    return
+                st.again = False
+                st.history.append(st.outcome)
+                st.outcome = None
+                st.finished = False
+                st.polls = st.sleeps = st.handler_sets = st.compiles = 0
+                st.loaded = []
 
     def gate(self, op, action, classify):
         """Block until granted, then perform `action` (or the injected fault)."""
@@ -335,6 +352,21 @@ class Scenario:
     def step(self, pid, choice="none"):
         """Grant request `pid` one step. Returns the trace entry."""
         st = self.procs[pid]
+        if choice == "again" and st.finished and not st.dead:
+            with self.cv:
+                st.again = True
+                self.cv.notify_all()
+                t0 = _time.time()
+                while st.again:  # the worker has not yet reset itself
+                    self.cv.wait(1.0)
+                    if _time.time() - t0 > STEP_TIMEOUT_S:
+                        raise SchedulerError(f"request {pid} did not restart")
+            self._wait(st)  # runs up to its first gate
+            e = (pid, "again", "-") + self.globals_now()
+            self.trace.append(e)
+            return e
+        if choice == "again":
+            choice = "none"
         if st.finished or st.dead:
             e = (pid, "none", "-") + self.globals_now()
             self.trace.append(e)
